@@ -348,12 +348,14 @@ static PSocket *sc_listener(PSocketAddress **bound, int backlog, int timeout) {
 	return ls;
 }
 static void sc_sock_refused(void) {
-	PSocketAddress *bound = NULL; PSocket *ls = sc_listener(&bound, 5, 100), *c; PError *err = NULL;
-	if (!ls) return;
-	p_socket_free(ls);                                  /* port is now closed */
-	c = p_socket_new(P_SOCKET_FAMILY_INET, P_SOCKET_TYPE_STREAM, P_SOCKET_PROTOCOL_TCP, &err); p_error_free(err); err = NULL;
-	if (c) { p_socket_set_timeout(c, 300); if (p_socket_connect(c, bound, &err)) DAMAGE("connect to a closed port succeeded"); p_error_free(err); err = NULL; (void)p_socket_send(c, "x", 1, &err); p_error_free(err); err = NULL; }
-	p_socket_free(c); p_socket_address_free(bound);
+	/* the target port is held by a bound socket that never listens: connections are refused and no other process can take the port meanwhile */
+	PSocketAddress *la = p_socket_address_new_loopback(P_SOCKET_FAMILY_INET, 0), *bound = NULL; PSocket *holder, *c; PError *err = NULL;
+	holder = p_socket_new(P_SOCKET_FAMILY_INET, P_SOCKET_TYPE_STREAM, P_SOCKET_PROTOCOL_TCP, &err); p_error_free(err); err = NULL;
+	if (holder && la && p_socket_bind(holder, la, FALSE, &err)) bound = p_socket_get_local_address(holder, NULL);
+	p_error_free(err); err = NULL;
+	c = bound ? p_socket_new(P_SOCKET_FAMILY_INET, P_SOCKET_TYPE_STREAM, P_SOCKET_PROTOCOL_TCP, &err) : NULL; p_error_free(err); err = NULL;
+	if (c) { p_socket_set_timeout(c, 300); if (p_socket_connect(c, bound, &err)) DAMAGE("connect to a port nobody listens on succeeded"); p_error_free(err); err = NULL; (void)p_socket_send(c, "x", 1, &err); p_error_free(err); err = NULL; }
+	p_socket_free(c); p_socket_free(holder); p_socket_address_free(bound); p_socket_address_free(la);
 }
 static void sc_sock_timeouts(void) {
 	PSocketAddress *bound = NULL; PSocket *ls = sc_listener(&bound, 0, 60), *fill[3] = { NULL, NULL, NULL }, *c, *ac; PError *err = NULL; int i; char b[8];
